@@ -1,6 +1,29 @@
 //! images used by single checks (C08 fragmentation, C12 growth, ...)
-use crate::images::ImageSet;
+use crate::images::{from_specs, Geo, ImageSet};
+use crate::spec::{GKind, ImageSpec};
 
-pub fn find_extra_image(_name: &str) -> Option<ImageSet> {
-    None
+/// G10 with 64-bit refcounts: refblock = 128 entries, 512-byte refblock slices = 64 entries.
+pub const GF: Geo = Geo { name: "GF", cluster_bits: 10, order: 6, version: 3, bs_bits: 9, l2_slice_bits: 9, rb_slice_bits: 9, tables: 3, extra_clusters: 0 };
+
+/// Fragmented host space: refblock slice 0 (host clusters 0..63) is full except for
+/// cluster 40 and its 2-cluster tail (62, 63); cluster 64 (index 0 of slice 1) is in use.
+pub fn frag_image() -> ImageSet {
+    let g = GF;
+    let mut s = ImageSpec::new(g.cluster_bits, g.order, g.vsize());
+    let ncl = s.guest_clusters();
+    s.kinds = vec![GKind::Unalloc; ncl];
+    // header, reftable, refblock, L1, one L2 table = 5 clusters; 57 data clusters fill 5..=64 minus the 3 skipped
+    for c in 0..57 {
+        s.kinds[c] = GKind::Data;
+    }
+    s.skip_host = vec![40, 62, 63];
+    let img = from_specs("GF-frag", "frag", vec![s]);
+    img
+}
+
+pub fn find_extra_image(name: &str) -> Option<ImageSet> {
+    match name {
+        "GF-frag" => Some(frag_image()),
+        _ => None,
+    }
 }
